@@ -22,6 +22,7 @@ DOC = {
  "C07.R4": "ticket Drop: RMW decrement by 1; marker attempt guarded by closed-bit-set and count==1 on the RMW's returned (previous) value",
  "C07.R5": "both send paths: status gate (>= Draining -> Err) dominates admission dominates enqueue; the ticket is bound to a local that is dropped only after the enqueue",
  "C07.R6": "refused sends return SendErr(original message); the message loop maps the marker to stop(Some(\"Drained\"))",
+ "C07.R8": "drain before the loop is up: drain() has no status precondition, therefore the start gate of each runtime admits Draining and link()'s child-side gates admit Draining (a drained cell still starts, works off its mailbox and stops with Drained)",
  "C07.R7": "typed and serialized send paths agree on the gate/ticket/enqueue skeleton (sibling cross-check)",
 }
 
@@ -358,6 +359,76 @@ def r7(run, db):
     run.check(a == b, "skeleton", "typed and serialized send agree: %s" % a, "send paths diverge: %s=%s vs %s=%s" % (sp[0].id.split("::")[-1], a, sp[1].id.split("::")[-1], b))
 
 
+def r8(run, db):
+    """a drain that lands before the message loop is up must not abort the start-up: the messages accepted so far are in the
+    mailbox, the marker behind them, and only a started actor can work them off and stop with "Drained".  drain() publishes
+    Draining from any earlier status (it has no precondition), so (a) start() has to let a Draining cell through and (b) the
+    tree has to accept a Draining *child* when start() links it."""
+    m = model(db)
+    # premise: from which statuses does drain() publish Draining?  (status word = fetch_update with a guarded closure)
+    from .c06 import status_ops
+    from .bits import cmp_tests, sym
+    early = []
+    npub = 0
+    for f, c, meth in status_ops(db):
+        if not re.search(r"ActorProperties::drain$", f.id) or meth != "fetch_update":
+            continue
+        for r in f.origins(c.args[3]):
+            if not (r["k"] == "agg" and r["stmt"]["rv"].get("kind") == "closure"):
+                continue
+            cl = db.fns.get(r["stmt"]["rv"]["def"])
+            if cl is None:
+                continue
+            for site, st in cl.aggregates(adt="std::option::Option", variant="Some"):
+                k2 = sym(cl, st["rv"]["ops"][0])
+                if k2[0] != "c" or k2[1] != STATUS_ORDER.index("Draining"):
+                    continue
+                npub += 1
+                adm = []
+                for v in range(len(STATUS_ORDER)):
+                    ok = True
+                    for t in cmp_tests(cl):
+                        a, b, op = t["a"], t["b"], t["op"]
+                        if not (a[0] == "arg" and b[0] == "c"):
+                            continue
+                        val = {"Lt": v < b[1], "Le": v <= b[1], "Eq": v == b[1], "Ne": v != b[1], "Ge": v >= b[1], "Gt": v > b[1]}.get(op)
+                        if val is None:
+                            continue
+                        if t["true_edge"] and cl.edge_dominates(t["true_edge"], site) and not val:
+                            ok = False
+                        if t["false_edge"] and cl.edge_dominates(t["false_edge"], site) and val:
+                            ok = False
+                    if ok:
+                        adm.append(STATUS_ORDER[v])
+                early += [v for v in ("Unstarted", "Starting") if v in adm]
+    run.anchor("drain's status publication", npub, 1)
+    if not early:
+        run.ok("drain-needs-running", "drain() publishes Draining only for actors past start-up; nothing to show")
+        return
+    run.ok("drain-any-status", "drain() publishes Draining also while the actor is %s" % sorted(set(early)))
+    for rt in m.runtimes():
+        sb = m.start_body(rt)
+        cs = [c for c in m.sink_calls_for(rt + ".pre_start")]
+        run.anchor("%s pre_start race" % rt, len(cs), 1, sb.where())
+        for c in cs:
+            gs_ = status_gates_in_chain(db, sb, c.site)
+            adm = admitted_statuses(gs_)
+            run.check("Draining" in adm, "%s|start-admits-drained-cell" % rt, "start() lets a cell through that was drained before it started (admits %s)" % adm,
+                      "start() admits only %s, but drain() can publish Draining on an Unstarted cell: the start-up then fails (\"already started\"), the mailbox with every accepted message is dropped and nobody ever sees \"Drained\"" % adm, c.where())
+    link = run.need(db.one(r"SupervisionTree::link$"), "SupervisionTree::link")
+    ins = [c for c in link.calls() if c.matches(r"HashMap::<K, V, S, A>::insert$")]
+    run.anchor("link child-map insertions", len(ins), 1, link.where())
+    for c in ins:
+        child_g = []
+        for g, pol in status_gates_at(link, c.site):
+            for r in g["subject"]:
+                if r["k"] == "call" and 1 in link.origin_args(r["call"].args[0]):
+                    child_g.append((g, pol))
+        adm = admitted_statuses(child_g)
+        run.check("Draining" in adm, "link-admits-draining-child", "a Draining child can be linked (child-side gates admit %s)" % adm,
+                  "link() refuses a child that is Draining (child-side gates admit %s): an actor drained during its own start-up fails to start (\"Supervisor is shutting down\") and its accepted messages are dropped" % adm, c.where())
+
+
 Q = ["dflt", "rc"]
 TH = ["dflt", "rc", "atr", "astd", "mon"]
-RULES = [{"id": "C07.R%d" % i, "fn": f, "quick": Q, "thorough": TH} for i, f in enumerate([r1, r2, r3, r4, r5, r6, r7], 1)]
+RULES = [{"id": "C07.R%d" % i, "fn": f, "quick": Q, "thorough": TH} for i, f in enumerate([r1, r2, r3, r4, r5, r6, r7, r8], 1)]
